@@ -10,6 +10,7 @@ package chain_test
 
 import (
 	"context"
+	"encoding/binary"
 	"fmt"
 	"sort"
 	"strconv"
@@ -31,6 +32,9 @@ import (
 	"github.com/ava-labs/hypersdk/internal/validitywindow"
 	"github.com/ava-labs/hypersdk/internal/validitywindow/validitywindowtest"
 	"github.com/ava-labs/hypersdk/internal/verifh"
+	"github.com/ava-labs/hypersdk/internal/workers"
+
+	internalfees "github.com/ava-labs/hypersdk/internal/fees"
 )
 
 type c02Case struct {
@@ -38,6 +42,7 @@ type c02Case struct {
 	cap                      int
 	parentHeight             uint64
 	minEmptyGap              int64 // rules.MinEmptyBlockGap; the parent is always 5 s older than the build
+	pf                       string // parent fee state: "-" (empty bytes) or "<price>/<newest window slot>/<lastConsumed>" (all dimensions)
 	parent                   map[int]uint64
 	specs                    []hTxSpec
 	dups                     []bool
@@ -87,7 +92,7 @@ func TestVerifC02(t *testing.T) {
 			continue
 		}
 		switch {
-		case f[0] == "build" && len(f) == 8:
+		case f[0] == "build" && len(f) == 10:
 			p, e1 := parseDims(f[2])
 			m, e2 := parseDims(f[3])
 			tg, e3 := parseDims(f[4])
@@ -100,8 +105,20 @@ func TestVerifC02(t *testing.T) {
 				c = nil
 				continue
 			}
-			c = &c02Case{prices: p, maxUnits: m, target: tg, cap: cp, parentHeight: ph, minEmptyGap: mg, parent: map[int]uint64{}}
-			r.Emit(l, "ok")
+			c = &c02Case{prices: p, maxUnits: m, target: tg, cap: cp, parentHeight: ph, minEmptyGap: mg, pf: f[8], parent: map[int]uint64{}}
+			now := time.Now().UnixMilli()
+			raw, err := c02ParentFee(c.pf, now-5000)
+			if err != nil {
+				r.Emit(l, "bad-op")
+				c = nil
+				continue
+			}
+			// the prices the block will use, from the running code (deterministic: see c02ParentFee)
+			f[9] = dimsStr(internalfees.NewManager(raw).ComputeNext(now, hRules(p, m, tg)).UnitPrices(), ",")
+			if c.pf != "-" {
+				r.Count("build:parent-fee-state")
+			}
+			r.Emit(strings.Join(f, " "), "ok")
 		case f[0] == "parent" && c != nil && len(c.specs) == 0:
 			vals, err := parseParentLine(f[1:])
 			if err != nil {
@@ -138,17 +155,18 @@ func TestVerifC02(t *testing.T) {
 				r.Count("mtx:dup")
 			}
 			r.Emit(strings.Join(f, " "), "ok")
-		case (f[0] == "run" && len(f) == 3 || f[0] == "par" && len(f) == 2) && c != nil:
+		case (f[0] == "run" || f[0] == "par") && len(f) == 3 && c != nil:
 			cores, e0 := strconv.Atoi(f[1])
 			if e0 != nil || cores < 1 || cores > 64 || (f[0] == "run" && cores != 1) {
 				r.Emit(l, "bad-op")
 				continue
 			}
-			out, order, viol := c02Run(metrics, c, cores, r)
+			out, order, pout, emitted, viol := c02Run(metrics, c, cores, r)
 			if f[0] == "run" {
 				r.Emit(fmt.Sprintf("run 1 %s", order), out)
 			} else {
-				r.Emit(l, "done")
+				// multi-core: the model is given the emitted block and must verify it to the same outputs
+				r.Emit(fmt.Sprintf("par %d %s", cores, emitted), pout)
 			}
 			for _, v := range viol {
 				r.Violation(v[0], "%s (cores=%d, %d mempool txs)", v[1], cores, len(c.specs))
@@ -163,16 +181,19 @@ func TestVerifC02(t *testing.T) {
 }
 
 // c02Run builds on a fresh parent + mempool, verifies the built block, and renders the result.
-func c02Run(metrics *chain.ChainMetrics, c *c02Case, cores int, r *verifh.Run) (string, string, [][2]string) {
+func c02Run(metrics *chain.ChainMetrics, c *c02Case, cores int, r *verifh.Run) (out, orderStr, pout, emitted string, viol [][2]string) {
 	ctx := context.Background()
-	var viol [][2]string
 	now := time.Now().UnixMilli()
 	parentTs := now - 5000
 	rules := hRules(c.prices, c.maxUnits, c.target)
 	rules.MinEmptyBlockGap = c.minEmptyGap
-	db, err := newParentDB(c.parent, c.parentHeight, parentTs)
+	feeRaw, err := c02ParentFee(c.pf, parentTs)
 	if err != nil {
-		return "err-db", "-", nil
+		return "err-fee", "-", "err-fee", "!", nil
+	}
+	db, err := newParentDBFee(c.parent, c.parentHeight, parentTs, feeRaw)
+	if err != nil {
+		return "err-db", "-", "err-db", "!", nil
 	}
 	txs := make([]*chain.Transaction, len(c.specs))
 	idOf := map[ids.ID]int{}
@@ -180,7 +201,7 @@ func c02Run(metrics *chain.ChainMetrics, c *c02Case, cores int, r *verifh.Run) (
 	for i, sp := range c.specs {
 		tx, err := buildTx(sp, now, rules.ValidityWindow, uint32(i), i%3 == 0)
 		if err != nil {
-			return "err-tx", "-", nil
+			return "err-tx", "-", "err-tx", "!", nil
 		}
 		txs[i] = tx
 		idOf[tx.GetID()] = i
@@ -205,7 +226,7 @@ func c02Run(metrics *chain.ChainMetrics, c *c02Case, cores int, r *verifh.Run) (
 	builder := chain.NewBuilder(trace.Noop, &genesis.ImmutableRuleFactory{Rules: rules}, &logging.NoLog{}, hMeta, hBalance, mp, vw, metrics, cfg)
 	pblk, err := chain.NewStatelessBlock(ids.Empty, parentTs, c.parentHeight, nil, ids.Empty, nil)
 	if err != nil {
-		return "err-parent", "-", nil
+		return "err-parent", "-", "err-parent", "!", nil
 	}
 	parentOut := &chain.OutputBlock{ExecutionBlock: chain.NewExecutionBlock(pblk), View: db}
 
@@ -229,9 +250,9 @@ func c02Run(metrics *chain.ChainMetrics, c *c02Case, cores int, r *verifh.Run) (
 	var b bres
 	select {
 	case b = <-ch:
-	case <-time.After(20 * time.Second):
+	case <-time.After(120 * time.Second):
 		setAuthHook(nil)
-		return "hang", "-", [][2]string{{"build-hang", "BuildBlock did not return within 20s"}}
+		return "hang", "-", "hang", "!", [][2]string{{"build-hang", "BuildBlock did not return within 120s"}}
 	}
 	setAuthHook(nil)
 	mp.mu.Lock()
@@ -244,18 +265,18 @@ func c02Run(metrics *chain.ChainMetrics, c *c02Case, cores int, r *verifh.Run) (
 			viol = append(viol, [2]string{"build-hang", "FinishStreaming was not called within 10s of BuildBlock returning"})
 		}
 	}
-	orderStr := "-"
+	orderStr = "-"
 	if len(order) > 0 {
 		orderStr = strings.Join(order, ",")
 	}
 	if b.err != nil {
 		r.Count("build:err")
-		return "builderr", orderStr, viol
+		return "builderr", orderStr, "builderr", "!", viol
 	}
 	r.Count(fmt.Sprintf("build:txs=%d", (len(b.eb.StatelessBlock.Txs)+4)/5*5))
 	builtRoot, err := b.ob.View.GetMerkleRoot(ctx)
 	if err != nil {
-		return "err-root", orderStr, viol
+		return "err-root", orderStr, "err-root", "!", viol
 	}
 	builtRes := func() string {
 		return fmt.Sprintf("res=%s prices=%s consumed=%s",
@@ -266,7 +287,23 @@ func c02Run(metrics *chain.ChainMetrics, c *c02Case, cores int, r *verifh.Run) (
 		viol = append(viol, [2]string{"build-verify-mismatch", "builder returned a different number of results than transactions"})
 	}
 
-	// verification on a "fresh node": block parsed from bytes, new processors, same parent view
+	// verification on a "fresh node": block parsed from bytes, new processors, same parent view,
+	// and a validity window that really rejects txs of an ancestor and txs repeated in the block
+	strict := &validitywindowtest.MockTimeValidityWindow[*chain.Transaction]{
+		OnVerifyExpiryReplayProtection: func(_ context.Context, blk validitywindow.ExecutionBlock[*chain.Transaction]) error {
+			seen := set.Set[ids.ID]{}
+			for _, tx := range blk.GetContainers() {
+				if dupSet.Contains(tx.GetID()) {
+					return fmt.Errorf("tx %s is already in an ancestor inside the validity window", tx.GetID())
+				}
+				if seen.Contains(tx.GetID()) {
+					return fmt.Errorf("tx %s twice in the block", tx.GetID())
+				}
+				seen.Add(tx.GetID())
+			}
+			return nil
+		},
+	}
 	for _, vc := range []int{1, 4} {
 		parsed, err := chain.UnmarshalBlock(b.eb.GetBytes(), hParser())
 		if err != nil {
@@ -279,16 +316,19 @@ func c02Run(metrics *chain.ChainMetrics, c *c02Case, cores int, r *verifh.Run) (
 		}
 		vch := make(chan vres, 1)
 		go func() {
-			p, stop := c01Processor(metrics, rules, vc, vc)
-			o, err := p.Execute(ctx, db, chain.NewExecutionBlock(parsed), true)
-			stop()
+			w := workers.NewSerial()
+			if vc > 1 {
+				w = workers.NewParallel(vc, 100)
+			}
+			o, err := c01NewProcessor(metrics, rules, w, vc, vc, strict).Execute(ctx, db, chain.NewExecutionBlock(parsed), true)
+			w.Stop()
 			vch <- vres{o, err}
 		}()
 		var v vres
 		select {
 		case v = <-vch:
-		case <-time.After(20 * time.Second):
-			viol = append(viol, [2]string{"verify-hang", "Processor.Execute of the built block did not return within 20s"})
+		case <-time.After(120 * time.Second):
+			viol = append(viol, [2]string{"verify-hang", "Processor.Execute of the built block did not return within 120s"})
 			continue
 		}
 		if v.err != nil {
@@ -325,7 +365,7 @@ func c02Run(metrics *chain.ChainMetrics, c *c02Case, cores int, r *verifh.Run) (
 	hv, _ := b.ob.View.GetValue(ctx, hk)
 	height := "?"
 	if len(hv) == 8 {
-		height = strconv.FormatUint(uint64(hv[7])|uint64(hv[6])<<8|uint64(hv[5])<<16|uint64(hv[4])<<24, 10)
+		height = strconv.FormatUint(binary.BigEndian.Uint64(hv), 10)
 	}
 	join := func(a []string) string {
 		if len(a) == 0 {
@@ -333,8 +373,40 @@ func c02Run(metrics *chain.ChainMetrics, c *c02Case, cores int, r *verifh.Run) (
 		}
 		return strings.Join(a, ",")
 	}
-	return fmt.Sprintf("ok txs=%s post=%s h=%s %s restored=%s", join(bt), showPost(ctx, b.ob.View), height,
-		strings.Replace(builtRes, " prices="+dimsStr(b.ob.ExecutionResults.UnitPrices, "."), "", 1), join(rs)), orderStr, viol
+	post := showPost(ctx, b.ob.View)
+	return fmt.Sprintf("ok txs=%s post=%s h=%s %s restored=%s", join(bt), post, height, builtRes, join(rs)), orderStr,
+		fmt.Sprintf("ok post=%s h=%s %s", post, height, builtRes), join(bt), viol
+}
+
+// c02ParentFee builds the parent's fee-manager bytes. Units sit only in the newest window slot and
+// in lastConsumed, so the window total — hence the next price — is the same for every build that
+// starts 1..9 s after the parent, however long the harness is stalled in between.
+func c02ParentFee(pf string, parentTs int64) ([]byte, error) {
+	if pf == "-" {
+		return []byte{}, nil
+	}
+	a := strings.Split(pf, "/")
+	if len(a) != 3 {
+		return nil, fmt.Errorf("bad parent fee")
+	}
+	var v [3]uint64
+	for i := range a {
+		x, err := strconv.ParseUint(a[i], 10, 64)
+		if err != nil {
+			return nil, err
+		}
+		v[i] = x
+	}
+	const dimLen = 8 + 80 + 8
+	raw := make([]byte, 8+fees.FeeDimensions*dimLen)
+	binary.BigEndian.PutUint64(raw[0:8], uint64(parentTs/1000))
+	for d := 0; d < fees.FeeDimensions; d++ {
+		st := 8 + d*dimLen
+		binary.BigEndian.PutUint64(raw[st:], v[0])
+		binary.BigEndian.PutUint64(raw[st+8+9*8:], v[1])
+		binary.BigEndian.PutUint64(raw[st+8+80:], v[2])
+	}
+	return raw, nil
 }
 
 // ---------------------------------------------------------------- generator
@@ -344,7 +416,11 @@ func c02EmitCase(lines *[]string, prices, maxUnits, target string, cap int, ph i
 }
 
 func c02EmitCaseGap(lines *[]string, prices, maxUnits, target string, cap int, ph int, gap int, parent string, txs []*hGenTx, dups []bool, par []int) {
-	*lines = append(*lines, fmt.Sprintf("build %d %s %s %s %d %d %d", hNumKeys, prices, maxUnits, target, cap, ph, gap), parent)
+	pf := "-"
+	if (len(*lines)/7)%3 == 1 { // a third of the cases: parent with a non-trivial fee state (price above/below the minimum)
+		pf = []string{"150/0/0", "100/3000/40", "400/1/1", "1/100000/100000", "37/50/0"}[(len(*lines)/11)%5]
+	}
+	*lines = append(*lines, fmt.Sprintf("build %d %s %s %s %d %d %d %s 0,0,0,0,0", hNumKeys, prices, maxUnits, target, cap, ph, gap, pf), parent)
 	for i, g := range txs {
 		d := "0"
 		if dups[i] {
@@ -354,7 +430,7 @@ func c02EmitCaseGap(lines *[]string, prices, maxUnits, target string, cap int, p
 	}
 	*lines = append(*lines, "run 1 -")
 	for _, p := range par {
-		*lines = append(*lines, fmt.Sprintf("par %d", p))
+		*lines = append(*lines, fmt.Sprintf("par %d -", p))
 	}
 }
 
@@ -425,13 +501,13 @@ func c02Generate(r *verifh.Run) []string {
 			switch d := rng.Intn(3); d {
 			case 0:
 				v = 3 + rng.Intn(5*ntx+1)
-				lim[1], tg[1] = strconv.Itoa(v), strconv.Itoa(rng.Intn(v+2))
+				lim[1], tg[1] = strconv.Itoa(v), strconv.Itoa(1+rng.Intn(v+1))
 			case 1:
 				v = 7 + rng.Intn(20*ntx+1)
-				lim[2], tg[2] = strconv.Itoa(v), strconv.Itoa(rng.Intn(v+2))
+				lim[2], tg[2] = strconv.Itoa(v), strconv.Itoa(1+rng.Intn(v+1))
 			default:
 				v = 100 + rng.Intn(150*ntx+1)
-				lim[0], tg[0] = strconv.Itoa(v), strconv.Itoa(rng.Intn(v+2))
+				lim[0], tg[0] = strconv.Itoa(v), strconv.Itoa(1+rng.Intn(v+1))
 			}
 			maxUnits, target = strings.Join(lim, ","), strings.Join(tg, ",")
 		}
